@@ -103,6 +103,11 @@ func main() {
 			bad = append(bad, fmt.Sprintf("UNDISCIPLINED %s of %s in %s at %s (held shared %v excl %v)", kind, row.FieldName, row.Func, row.Pos[0], lockNames(res, row.HeldShared), lockNames(res, row.HeldExcl)))
 		}
 	}
+	for _, ar := range res.Acqs {
+		if !ar.OK && ar.Known == "" {
+			bad = append(bad, fmt.Sprintf("UNGATED acquisition of %s in %s at %s (held shared %v excl %v)", ar.LockName, ar.Func, ar.Pos[0], lockNames(res, ar.HeldShared), lockNames(res, ar.HeldExcl)))
+		}
+	}
 	for _, e := range res.Edges {
 		if res.Locks[e.From].Rank >= res.Locks[e.To].Rank {
 			bad = append(bad, fmt.Sprintf("LOCK-ORDER CYCLE edge %s -> %s at %s", res.Locks[e.From].Name, res.Locks[e.To].Name, e.Pos[0]))
@@ -163,6 +168,27 @@ type edgeOut struct {
 	Known string `json:"known,omitempty"`
 }
 
+type gateOut struct {
+	Lock int    `json:"lock"`
+	Gate int    `json:"gate"`
+	Name string `json:"name"`
+}
+
+type acqOut struct {
+	Site       int      `json:"site"`
+	Func       string   `json:"func"`
+	Lock       int      `json:"lock"`
+	LockName   string   `json:"lock_name"`
+	HeldShared []int    `json:"held_shared"`
+	HeldExcl   []int    `json:"held_excl"`
+	Known      string   `json:"known,omitempty"`
+	// Leaf: nothing is acquired while the lock is held (it is released at
+	// once); such a hold cannot be part of a wait-for cycle.
+	Leaf bool `json:"leaf"`
+	OK   bool `json:"gate_held_or_leaf"`
+	Pos        []string `json:"pos"`
+}
+
 type exemptOut struct {
 	Field  string `json:"field"`
 	Reason string `json:"reason"`
@@ -188,6 +214,10 @@ type summary struct {
 	FreshSkipped       int `json:"accesses_on_fresh_objects"`
 	InitSkipped        int `json:"accesses_in_init_functions"`
 	AddrTaken          int `json:"address_taken_sites_not_followed"`
+	GatedAcqRows       int `json:"gated_acquisition_rows"`
+	UngatedAcqs        int `json:"acquisitions_without_gate"`
+	KnownUngatedAcqs   int `json:"known_acquisitions_without_gate"`
+	ExemptAcqs         int `json:"acquisitions_under_exclusive_gate"`
 }
 
 type result struct {
@@ -198,6 +228,11 @@ type result struct {
 	Rows       []rowOut          `json:"rows"`
 	Edges      []edgeOut         `json:"edges"`
 	KnownEdges []edgeOut         `json:"known_edges"`
+	Gates      []gateOut         `json:"gates"`
+	Acqs       []acqOut          `json:"gated_acquisitions"`
+	// ExemptAcqs: acquisitions of a gated lock made with the gate held
+	// exclusively; they cannot block and contribute no lock-order edge.
+	ExemptAcqs []string `json:"acquisitions_under_exclusive_gate"`
 	StaleKnown []string          `json:"stale_known_entries"`
 	KnownCycle []int             `json:"known_cycle"`
 	Exempt     []exemptOut       `json:"exempt"`
@@ -277,6 +312,26 @@ func renderLean(r *result) string {
 		}
 		fmt.Fprintf(&b, "  (%d, %d)%s  -- %s %s\n", e.From, e.To, sep, e.Known, e.Pos[0])
 	}
+	b.WriteString("]\n\n/-- (gated lock, its gate) -/\ndef gates : List (Nat × Nat) := [\n")
+	for i, g := range r.Gates {
+		sep := ","
+		if i == len(r.Gates)-1 {
+			sep = ""
+		}
+		fmt.Fprintf(&b, "  (%d, %d)%s  -- %s\n", g.Lock, g.Gate, sep, g.Name)
+	}
+	b.WriteString("]\n\n/-- acquisition sites of gated locks: site, lock, held shared, held exclusively, known finding -/\ndef acqs : List AcqRow := [\n")
+	for i, a := range r.Acqs {
+		sep := ","
+		if i == len(r.Acqs)-1 {
+			sep = ""
+		}
+		kn := "false"
+		if a.Known != "" {
+			kn = "true"
+		}
+		fmt.Fprintf(&b, "  ⟨%d, %d, %s, %s, %v, %s⟩%s  -- %s %s\n", a.Site, a.Lock, intsLean(a.HeldShared), intsLean(a.HeldExcl), a.Leaf, kn, sep, a.Func, a.Pos[0])
+	}
 	b.WriteString("]\n\n/-- a cycle of `edges ++ knownEdges` through a known edge (empty if there is none) -/\n")
 	fmt.Fprintf(&b, "def knownCycle : List Nat := %s\n", intsLean(r.KnownCycle))
 	b.WriteString("\nend AGH.Gen.C05\n")
@@ -304,6 +359,11 @@ func printReport(r *result) {
 		fmt.Printf("  %s -> %s  [%s] %s\n", r.Locks[e.From].Name, r.Locks[e.To].Name, e.Known, strings.Join(e.Pos, " "))
 	}
 	fmt.Println("== stale known entries:", r.StaleKnown)
+	fmt.Println("== gated acquisitions")
+	for _, a := range r.Acqs {
+		fmt.Printf("  %s %s shared=%v excl=%v leaf=%v ok=%v known=%q %s\n", a.Func, a.LockName, lockNames(r, a.HeldShared), lockNames(r, a.HeldExcl), a.Leaf, a.OK, a.Known, strings.Join(a.Pos, " "))
+	}
+	fmt.Println("== acquisitions under the exclusively held gate (no edge):", r.ExemptAcqs)
 	fmt.Println("== exempt fields")
 	for _, e := range r.Exempt {
 		fmt.Printf("  %s: %s (sites %d, writes outside init %d)\n", e.Field, e.Reason, e.Sites, e.Writes)
